@@ -1473,16 +1473,44 @@ func (t *itype) comparable() bool {
 }
 
 func (t *itype) assignableTo(o *itype) bool {
+	if isInterface(t) && !isInterface(o) && !t.untyped && !o.untyped && o.cat != nilT && t.cat != nilT {
+		// A value of interface type is not assignable to a type which is not
+		// an interface: a type assertion is needed.
+		return false
+	}
+
 	if t.equals(o) {
 		return true
+	}
+
+	if (t.cat == linkedT) != (o.cat == linkedT) && !t.untyped && !o.untyped {
+		// A defined type and a predeclared type of the same underlying type are
+		// both named: they are not assignable to each other.
+		if d, b := t, o; d.cat == linkedT || b.cat == linkedT {
+			if b.cat == linkedT {
+				d, b = b, d
+			}
+			if isBasicNamed(b) {
+				return false
+			}
+		}
+	}
+
+	if t.cat == ptrT && o.cat == ptrT && t.val != nil && o.val != nil && t.val.cat != valueT && o.val.cat != valueT {
+		// Pointer types are assignable when their base types are identical.
+		return t.val.id() == o.val.id()
 	}
 
 	if t.cat == linkedT && o.cat == linkedT && (t.underlying().id() != o.underlying().id() || !typeDefined(t, o)) {
 		return false
 	}
 
-	if t.isNil() && o.hasNil() || o.isNil() && t.hasNil() {
-		return true
+	if t.isNil() {
+		// nil is assignable to the types which have a nil value only.
+		return o.hasNil()
+	}
+	if o.isNil() {
+		return t.hasNil()
 	}
 
 	if t.TypeOf().AssignableTo(o.TypeOf()) {
@@ -1519,6 +1547,16 @@ func (t *itype) assignableTo(o *itype) bool {
 		return false
 	}
 	return representableConst(con, o.TypeOf())
+}
+
+// isBasicNamed returns true if t is a predeclared boolean, numeric or string type.
+func isBasicNamed(t *itype) bool {
+	switch t.cat {
+	case boolT, complex64T, complex128T, float32T, float64T, intT, int8T, int16T, int32T, int64T,
+		stringT, uintT, uint8T, uint16T, uint32T, uint64T, uintptrT:
+		return true
+	}
+	return false
 }
 
 // convertibleTo returns true if t is convertible to o.
